@@ -68,10 +68,9 @@ class AccWorld(lf.LinWorldMixin, OracleWorld):
                 st.emit(("rejects-input", "value above U+10FFFF"))
                 return ip.err(Opq("ucd-error", ()))
             return ip.ok(cp(x))
-        if callee["name"] in ("eq", "ne") and callee.get("trait") == "core::cmp::PartialEq" and len(args) == 2:
-            a, b = deref_all(m, st, args[0]), deref_all(m, st, args[1])
-            if isinstance(a, Adt) and isinstance(b, Adt) and a.ty == b.ty == CP:
-                r = ip.compare(st, "Eq", a.fields[0], b.fields[0], self)
+        if callee["name"] in ("eq", "ne") and (callee.get("trait") == "core::cmp::PartialEq" or "PartialEq" in callee["path"]) and len(args) == 2:
+            r = self.struct_eq(m, st, args[0], args[1])
+            if r is not None:
                 return ip.boolean(r if callee["name"] == "eq" else not r)
         if callee["name"] == "clone" and args:
             v = deref_all(m, st, args[0])
@@ -80,7 +79,7 @@ class AccWorld(lf.LinWorldMixin, OracleWorld):
                 st.ext["n_vec"] = n
                 st.emit(("clone", ("v", n), v.data))
                 return Opq("vec", ("v", n))
-            if isinstance(v, (Adt, I, Sym, Tup)):
+            if isinstance(v, (Adt, I, Sym, Tup, ip.Str)):
                 return v
         if p in ("alloc::vec::Vec::<T>::new", "alloc::vec::Vec::<T>::with_capacity"):
             n = st.ext.get("n_vec", 0) + 1
@@ -129,12 +128,54 @@ class AccWorld(lf.LinWorldMixin, OracleWorld):
         dl = term["dest"]
         return ty_.fresh(self.prog, st.frames[-1].body.locals[dl["l"]]["ty"] if not dl["p"] else "?", ("ext", callee["name"], st.fresh()))
 
+    def struct_eq(self, m, st, a, b):
+        """Derived / std equality of the values the generators compare (Codepoint, Option<..>, class names)."""
+        a, b = deref_all(m, st, a), deref_all(m, st, b)
+        if isinstance(a, Sym) and a.ty not in ip.INT_BITS:
+            a = m.concretize(st, a)
+        if isinstance(b, Sym) and b.ty not in ip.INT_BITS:
+            b = m.concretize(st, b)
+        if isinstance(a, ip.Str) and isinstance(b, ip.Str):
+            return self.str_eq(st, a, b)
+        if isinstance(a, (I, Sym)) and isinstance(b, (I, Sym)):
+            return ip.compare(st, "Eq", a, b, self)
+        if isinstance(a, Adt) and isinstance(b, Adt) and a.ty == b.ty:
+            if a.variant != b.variant or len(a.fields) != len(b.fields):
+                return False
+            for x, y in zip(a.fields, b.fields):
+                r = self.struct_eq(m, st, x, y)
+                if r is None:
+                    return None
+                if not r:
+                    return False
+            return True
+        if isinstance(a, Tup) and isinstance(b, Tup) and len(a.fields) == len(b.fields):
+            for x, y in zip(a.fields, b.fields):
+                r = self.struct_eq(m, st, x, y)
+                if r is None:
+                    return None
+                if not r:
+                    return False
+            return True
+        return None
+
     def vec_push(self, m, st, vecref, item):
         v = deref_all(m, st, vecref)
         if not (isinstance(v, Opq) and v.kind == "vec"):
             raise AnalysisError("push into %r" % (v,))
         if isinstance(item, Sym):
             item = m.concretize(st, item)
+        cls = None
+        if isinstance(item, Tup) and len(item.fields) == 2 and isinstance(item.fields[0], Adt) and item.fields[0].ty == CPS:
+            cls = item.fields[1]
+            if isinstance(cls, Ref):
+                cls = deref_all(m, st, cls)
+            if not isinstance(cls, ip.Str):
+                raise AnalysisError("an entry is pushed with the value %r" % (cls,))
+            item = item.fields[0]
+            lo, hi = (item.fields[0].fields[0],) * 2 if item.variant == 0 else (item.fields[0].fields[0].fields[0], item.fields[0].fields[1].fields[0])
+            st.emit(("emit", v.data, lo, hi, cls.tag))
+            return ip.UNIT
         if isinstance(item, Adt) and item.ty == CPS:
             if item.variant == 0:
                 x = item.fields[0].fields[0]
@@ -146,24 +187,45 @@ class AccWorld(lf.LinWorldMixin, OracleWorld):
         raise AnalysisError("push of %r" % (item,))
 
     def stream_next(self, m, st, term):
-        """The cut point: the next element of the sorted input, N+G (N = previous element + 1)."""
+        """The cut point: the next element of the ascending input (N = previous element's last code point + 1)."""
         letter = st.ext.get("letter")
         if letter is None:
             return ip.Outcome("suspend", None, st, "next")
         st.ext["letter"] = None
         if letter == "END":
             return ip.none()
-        c = lf.from_lf({"N": 1, "G": 1}, 0)
         dl = term["dest"]
         dty = st.frames[-1].body.locals[dl["l"]]["ty"] if not dl["p"] else "core::option::Option<u32>"
         inner = ty_.generic_args(dty)[1][0] if "<" in dty else "u32"
-        v = c
+        v = self.make_element(st, letter)
         while inner.startswith("&"):
             v = Ref(("val", v))
             inner = inner[1:].lstrip()
             if inner.startswith("'"):
                 inner = inner.split(" ", 1)[1] if " " in inner else inner
+            if inner.startswith("mut "):
+                inner = inner[4:]
         return ip.some(v)
+
+    def make_element(self, st, letter):
+        first = lf.from_lf({"N": 1, "G": 1}, 0)
+        if letter == "elem":
+            return first
+        kind, cls = letter
+        last = lf.from_lf({"N": 1, "G": 1, "W": 1}, 0)
+        entry = single(first) if kind == "single" else range_(first, last)
+        prev = st.ext.get("v:C")  # class of the previous element
+        if cls == "same":
+            tag = prev.tag
+        else:
+            tag = ("cls", "new")
+        st.ext["v:C"] = ip.Str(tag)
+        return Tup((entry, ip.Str(tag)))
+
+    def str_eq(self, st, a, b):
+        if isinstance(a, ip.Str) and isinstance(b, ip.Str):
+            return a.tag == b.tag  # class names: different tags are different classes
+        raise AnalysisError("string comparison of %r and %r" % (a, b))
 
     def error_conversion(self, st, val, from_ty, to_ty):
         return val
@@ -417,6 +479,50 @@ class LoopShape:
         return "%s; uncovered from %s; %s" % (", ".join(parts), lf.fmt(lf.to_lf(u)) if u is not None else "?", {a: "%d..%d" % r for a, r in sorted(self.ranges.items())})
 
 
+def abstract_stale(st, facts, n_atom="N'"):
+    """Every form that mentions atoms other than the anchor N is reduced to `N - 1 - t` (or `N + t`) with a
+    fresh t whose range is the range of what it replaces; equal expressions share their t. This forgets how
+    different stale quantities relate to one another (sound: more states), and makes the set of shapes finite:
+    a form is either N+k or N-1-t."""
+    table = {}
+    new_ranges = {}
+
+    def f(sv):
+        l = lf.to_lf(sv) if isinstance(sv, (I, Sym)) else None
+        if l is None:
+            return sv
+        terms, k = l
+        stale = {a: c for a, c in terms.items() if a != n_atom}
+        if not stale:
+            return sv
+        cn = terms.get(n_atom, 0)
+        rest = (stale, k)
+        key = repr((sorted(stale.items()), k))
+        if key not in table:
+            rlo, rhi = lf.bounds(facts, rest)
+            name = "t%d" % len(table)
+            if all(c < 0 for c in stale.values()):
+                table[key] = ("neg", name)
+                new_ranges[name] = (max(-rhi - 1, 0) if -rhi - 1 >= 0 else -rhi - 1, min(-rlo - 1, MAXCP + 1))
+            elif all(c > 0 for c in stale.values()):
+                table[key] = ("pos", name)
+                new_ranges[name] = (rlo, min(rhi, MAXCP + 1))
+            else:
+                table[key] = None
+        ent = table[key]
+        if ent is None:
+            return sv
+        kind, name = ent
+        base = {n_atom: cn} if cn else {}
+        if kind == "neg":
+            return lf.from_lf(dict(base, **{name: -1}), -1, sv.ty)
+        return lf.from_lf(dict(base, **{name: 1}), 0, sv.ty)
+
+    map_state(st, lambda v: au.map_value(v, f))
+    for name, r in new_ranges.items():
+        facts[("rng", name)] = ((r[0], r[1]),)
+
+
 def canonical_state(st, new_n):
     """Like canonical(), for a suspended machine state: every form in frames/heap/ghosts is re-expressed over
     N' (renamed N), other atoms are renamed s0.. in order of appearance, facts are reduced to their ranges."""
@@ -432,14 +538,12 @@ def canonical_state(st, new_n):
     f2 = {k: x for k, x in facts.items() if k != ("rng", pivot)}
     lo, hi = lf.bounds(facts, nl)
     map_state(st, lambda v: substitute(v, f2, sub))
+    abstract_stale(st, facts)
     ren = {"N'": "N"}
     rng = {"N": (max(lo, 0), min(hi, MAXCP + 1))}
     k = 0
     for a in state_atoms(st):
         if a == "N'":
-            continue
-        if a.startswith("w"):
-            rng[a] = lf.atom_range(facts, a)  # a widening atom keeps its identity across steps
             continue
         ren[a] = "s%d" % k
         rng["s%d" % k] = lf.atom_range(facts, a)
@@ -499,11 +603,51 @@ def cover_step(facts, emitted, u, first, last):
     return err, leaves
 
 
-def explore_loop(prog, world, fn_key, args, on_step, on_end, max_shapes=24):
+def map_strs(v, f):
+    if isinstance(v, ip.Str):
+        return f(v)
+    if isinstance(v, Adt):
+        return Adt(v.ty, v.variant, tuple(map_strs(x, f) for x in v.fields))
+    if isinstance(v, Tup):
+        return Tup(tuple(map_strs(x, f) for x in v.fields))
+    if isinstance(v, ip.Clo):
+        return ip.Clo(v.defpath, tuple(map_strs(x, f) for x in v.captures))
+    if isinstance(v, Ref) and v.loc[0] in ("val", "valp"):
+        return Ref((v.loc[0], map_strs(v.loc[1], f)) + tuple(v.loc[2:]))
+    if isinstance(v, Opq) and isinstance(v.data, tuple):
+        return Opq(v.kind, tuple(map_strs(x, f) if isinstance(x, (ip.Str, Adt, Tup, Opq, Ref, ip.Clo)) else x for x in v.data))
+    return v
+
+
+def rename_classes(st):
+    """Class tags ('cls', x): the previous element's class becomes c0, the others c1, c2, ... in order of
+    appearance (ghosts first), so that shapes do not depend on how many classes went by."""
+    order = []
+    c = st.ext.get("v:C")
+    if isinstance(c, ip.Str):
+        order.append(c.tag)
+
+    def collect(x):
+        if isinstance(x.tag, tuple) and x.tag and x.tag[0] == "cls" and x.tag not in order:
+            order.append(x.tag)
+        return x
+
+    for k in sorted(k for k in st.ext if k.startswith("v:")):
+        if isinstance(st.ext[k], (ip.Str, Adt, Tup, Opq, Ref)):
+            map_strs(st.ext[k], collect)
+    map_state(st, lambda v: map_strs(v, collect))
+    ren = {t: ("cls", "c%d" % i) for i, t in enumerate(order)}
+    map_state(st, lambda v: map_strs(v, lambda x: ip.Str(ren[x.tag]) if x.tag in ren else x))
+
+
+def explore_loop(prog, world, fn_key, args, on_step, on_end, max_shapes=24, letters_for=None, new_n_of=None, init_state=None):
     """Fixpoint over the suspended states of a function whose loop consumes the ascending input stream.
-    on_step(shape, outcome) -> new ghost u (a form) or raises; on_end(shape, outcome)."""
+    on_step(shape, outcome) -> leaves [(facts, new u)] or [(facts, {ghost: value})]; on_end(shape, outcome)."""
     m = ip.Machine(prog, world)
-    st0 = m.start(fn_key, args)
+    letters_for = letters_for or (lambda sh: ["elem"])
+    new_n_of = new_n_of or (lambda letter: ({"N": 1, "G": 1}, 1))
+    st0 = init_state() if init_state else ip.State()
+    st0 = m.start(fn_key, args, st0)
     st0.ext["letter"] = None
     st0.ext["v:U"] = I(0, "u32")
     st0.facts[("rng", "N")] = ((0, 0),)
@@ -520,10 +664,12 @@ def explore_loop(prog, world, fn_key, args, on_step, on_end, max_shapes=24):
     errors = []
     while work:
         sh = work.pop()
-        for letter in ("elem", "END"):
+        for letter in list(letters_for(sh)) + ["END"]:
             s = sh.st.clone()
             s.facts = {("rng", a): ((r[0], r[1]),) for a, r in sh.ranges.items()}
             s.facts[("rng", "G")] = ((0, MAXCP),)
+            s.facts[("rng", "W")] = ((0, MAXCP),)
+            cur_letter = letter
             s.ext["letter"] = letter
             s.events, s.log, s.steps = [], [], 0
             try:
@@ -538,6 +684,7 @@ def explore_loop(prog, world, fn_key, args, on_step, on_end, max_shapes=24):
                     continue  # a value above U+10FFFF: not a code point, outside the quantifier
                 n_paths += 1
                 if letter == "END":
+                    world.cur_letter = "END"
                     if o.kind != "return":
                         errors.append("after the last element the function ends with %s (%s)" % (o.kind, o.info))
                         continue
@@ -546,11 +693,17 @@ def explore_loop(prog, world, fn_key, args, on_step, on_end, max_shapes=24):
                 if o.kind != "suspend":
                     errors.append("the loop step ends with %s (%s) instead of asking for the next element" % (o.kind, o.info))
                     continue
+                world.cur_letter = cur_letter
                 for leaf_facts, newu in on_step(sh, o) or ():
                     s2 = o.state.clone()
                     s2.facts = dict(leaf_facts)
-                    s2.ext["v:U"] = lf.from_lf(*lf.simplify({}, newu))
-                    ns = canonical_state(s2, ({"N": 1, "G": 1}, 1))
+                    if isinstance(newu, dict):
+                        for gk, gv in newu.items():
+                            s2.ext[gk] = lf.from_lf(*lf.simplify({}, gv)) if isinstance(gv, tuple) and len(gv) == 2 and isinstance(gv[0], dict) else gv
+                    else:
+                        s2.ext["v:U"] = lf.from_lf(*lf.simplify({}, newu))
+                    rename_classes(s2)
+                    ns = canonical_state(s2, new_n_of(cur_letter))
                     hit = None
                     done = False
                     for i, old in enumerate(shapes):
@@ -761,3 +914,66 @@ def generalise(old, new):
     rr = widen_ranges(old.ranges, new.ranges)
     rr[w] = (0, MAXCP + 1)
     return LoopShape(st, rr)
+
+
+def cover_step_valued(facts, emitted, u, v, first, last, c):
+    """cover_step for valued tables. The uncovered run [u..N-1] has class v; the step consumes first..last of
+    class c. Runs merge only when adjacent *and* of the same class; every emitted entry must lie within one
+    run and carry that run's class. Returns (error, leaves[(facts, {ghosts})])."""
+
+    def pred(f):
+        n = ({"N": 1}, 0)
+        r1_empty = lf.ask(f, "Gt", lf.add(u, lf.add(n, ({}, 1), -1), -1))
+        adjacent = lf.ask(f, "Eq", lf.add(first, n, -1))
+        runs = []
+        if not r1_empty:
+            runs.append([u, lf.add(n, ({}, 1), -1), v])
+        if runs and adjacent and v == c:
+            runs[-1][1] = last
+        else:
+            runs.append([first, last, c])
+        ti, pos = 0, runs[0][0]
+        for lo, hi, cls in emitted:
+            lo, hi = lf.to_lf(lo), lf.to_lf(hi)
+            d = lf.add(hi, lo, -1)
+            if not lf.ask(f, "Ge", d):
+                if lf.ask(f, "Eq", lf.add(d, ({}, 1))):
+                    continue
+                return "emits the inverted entry %s..=%s" % (lf.fmt(lf.simplify(f, lo)), lf.fmt(lf.simplify(f, hi)))
+            what = "%s..=%s as %s" % (lf.fmt(lf.simplify(f, lo)), lf.fmt(lf.simplify(f, hi)), cls_name(cls, c, v))
+            if ti >= len(runs):
+                return "emits %s although every input entry is already covered (a code point would be listed twice)" % what
+            if not lf.ask(f, "Eq", lf.add(lo, pos, -1)):
+                if lf.ask(f, "Gt", lf.add(lo, pos, -1)):
+                    return "emits %s, skipping the entries from %s that are not yet covered" % (what, lf.fmt(lf.simplify(f, pos)))
+                return "emits %s, but the first code point not yet covered is %s (a code point would be listed twice)" % (what, lf.fmt(lf.simplify(f, pos)))
+            if lf.ask(f, "Gt", lf.add(hi, runs[ti][1], -1)):
+                return "emits %s, which reaches past the run ending at %s (code points that are not in the input, or of another class)" % (what, lf.fmt(lf.simplify(f, runs[ti][1])))
+            if cls != runs[ti][2]:
+                return "emits %s, but those code points have %s" % (what, cls_name(runs[ti][2], c, v))
+            if lf.ask(f, "Eq", lf.add(hi, runs[ti][1], -1)):
+                ti += 1
+                pos = runs[ti][0] if ti < len(runs) else None
+            else:
+                pos = lf.add(hi, ({}, 1))
+        if ti < len(runs) - 1:
+            return "keeps the entries from %s (%s) pending together with the new entry at %s (%s): they are not one run" % (lf.fmt(lf.simplify(f, pos)), cls_name(runs[ti][2], c, v), lf.fmt(lf.simplify(f, runs[-1][0])), cls_name(runs[-1][2], c, v))
+        if ti < len(runs):
+            leaves.append((dict(f), {"v:U": pos, "v:V": ip.Str(runs[ti][2])}))
+        else:
+            leaves.append((dict(f), {"v:U": lf.add(last, ({}, 1)), "v:V": ip.Str(c)}))
+        return None
+
+    leaves = []
+    err = lf.forall(facts, pred)
+    return err, leaves
+
+
+def cls_name(tag, cur, pend):
+    if tag == cur and tag == pend:
+        return "the class of the current and the pending entries"
+    if tag == cur:
+        return "the class of the current entry"
+    if tag == pend:
+        return "the class of the pending run"
+    return "another class (%s)" % (tag[1] if isinstance(tag, tuple) and len(tag) > 1 else tag)
